@@ -221,6 +221,8 @@ pub struct Config {
     pub bound: Option<u32>,
     /// the workbooks are opened lazily from a two-sheet file and keep their second sheet unloaded (raw)
     pub lazy: bool,
+    /// (lazy only) objects whose index is listed here materialise ALL their sheets before the savers start
+    pub fully_materialised: Vec<usize>,
 }
 
 pub fn configs(tier: Tier) -> Vec<Config> {
@@ -228,19 +230,25 @@ pub fn configs(tier: Tier) -> Vec<Config> {
     let thorough = tier == Tier::Thorough;
     let t = |a: &[&'static str]| -> Vec<&'static str> { a.to_vec() };
     let mut v = vec![
-        Config { name: "2-savers-same-object", objects: vec![0, 0], texts: vec![if three { t(&["alpha", "beta", "gamma"]) } else { t(&["alpha", "beta"]) }], bound: None, lazy: false },
-        Config { name: "2-clones-equal-sets", objects: vec![0, 1], texts: vec![if three { t(&["alpha", "beta", "gamma"]) } else { t(&["alpha", "beta"]) }; 2], bound: None, lazy: false },
-        Config { name: "2-clones-disjoint-sets", objects: vec![0, 1], texts: if three { vec![t(&["a1", "a2", "a3"]), t(&["b1", "b2", "b3"])] } else { vec![t(&["a1", "a2"]), t(&["b1", "b2"])] }, bound: None, lazy: false },
-        Config { name: "2-clones-overlapping-sets", objects: vec![0, 1], texts: if three { vec![t(&["onlyA", "common", "alsoA"]), t(&["common", "onlyB", "alsoB"])] } else { vec![t(&["onlyA", "common"]), t(&["common", "onlyB"])] }, bound: None, lazy: false },
-        Config { name: "3-savers-shared+clone-overlapping", objects: vec![0, 0, 1], texts: vec![t(&["onlyA", "common"]), t(&["common", "onlyB"])], bound: Some(if thorough { 3 } else { 2 }), lazy: false },
-        Config { name: "3-clones-disjoint", objects: vec![0, 1, 2], texts: vec![t(&["a1", "a2"]), t(&["b1", "b2"]), t(&["c1", "c2"])], bound: Some(if thorough { 3 } else { 2 }), lazy: false },
+        Config { name: "2-savers-same-object", objects: vec![0, 0], texts: vec![if three { t(&["alpha", "beta", "gamma"]) } else { t(&["alpha", "beta"]) }], bound: None, lazy: false, fully_materialised: vec![] },
+        Config { name: "2-clones-equal-sets", objects: vec![0, 1], texts: vec![if three { t(&["alpha", "beta", "gamma"]) } else { t(&["alpha", "beta"]) }; 2], bound: None, lazy: false, fully_materialised: vec![] },
+        Config { name: "2-clones-disjoint-sets", objects: vec![0, 1], texts: if three { vec![t(&["a1", "a2", "a3"]), t(&["b1", "b2", "b3"])] } else { vec![t(&["a1", "a2"]), t(&["b1", "b2"])] }, bound: None, lazy: false, fully_materialised: vec![] },
+        Config { name: "2-clones-overlapping-sets", objects: vec![0, 1], texts: if three { vec![t(&["onlyA", "common", "alsoA"]), t(&["common", "onlyB", "alsoB"])] } else { vec![t(&["onlyA", "common"]), t(&["common", "onlyB"])] }, bound: None, lazy: false, fully_materialised: vec![] },
+        Config { name: "3-savers-shared+clone-overlapping", objects: vec![0, 0, 1], texts: vec![t(&["onlyA", "common"]), t(&["common", "onlyB"])], bound: Some(if thorough { 3 } else { 2 }), lazy: false, fully_materialised: vec![] },
+        Config { name: "3-clones-disjoint", objects: vec![0, 1, 2], texts: vec![t(&["a1", "a2"]), t(&["b1", "b2"]), t(&["c1", "c2"])], bound: Some(if thorough { 3 } else { 2 }), lazy: false, fully_materialised: vec![] },
     ];
     // lazily opened workbooks with an unloaded sheet: the save path that must keep raw string indexes valid
-    v.push(Config { name: "2-lazy-clones-disjoint-sets", objects: vec![0, 1], texts: vec![t(&["a1", "a2"]), t(&["b1", "b2"])], bound: None, lazy: true });
-    v.push(Config { name: "2-lazy-savers-same-object", objects: vec![0, 0], texts: vec![t(&["alpha", "beta"])], bound: None, lazy: true });
-    v.push(Config { name: "3-lazy-shared+clone-overlapping", objects: vec![0, 0, 1], texts: vec![t(&["onlyA", "common"]), t(&["common", "onlyB"])], bound: Some(if thorough { 3 } else { 2 }), lazy: true });
+    v.push(Config { name: "2-lazy-clones-disjoint-sets", objects: vec![0, 1], texts: vec![t(&["a1", "a2"]), t(&["b1", "b2"])], bound: None, lazy: true, fully_materialised: vec![] });
+    v.push(Config { name: "2-lazy-savers-same-object", objects: vec![0, 0], texts: vec![t(&["alpha", "beta"])], bound: None, lazy: true, fully_materialised: vec![] });
+    v.push(Config { name: "2-lazy-clones-one-fully-materialised", objects: vec![0, 1], texts: vec![t(&["a1", "a2"]), t(&["b1", "b2"])], bound: None, lazy: true, fully_materialised: vec![1] });
+    v.push(Config { name: "3-lazy-shared+clone-overlapping", objects: vec![0, 0, 1], texts: vec![t(&["onlyA", "common"]), t(&["common", "onlyB"])], bound: Some(if thorough { 3 } else { 2 }), lazy: true, fully_materialised: vec![] });
+    if !thorough {
+        // quick tier: since the per-save string table (fix 5ef43dc) fully loaded workbooks share no mutable state
+        // while saving; two of their configurations stay as regression guards, the lazy ones are all kept
+        v.retain(|c| !matches!(c.name, "2-clones-equal-sets" | "2-clones-disjoint-sets" | "3-clones-disjoint"));
+    }
     if thorough {
-        v.push(Config { name: "3-clones-overlapping", objects: vec![0, 1, 2], texts: vec![t(&["x", "common"]), t(&["common", "y"]), t(&["z", "common"])], bound: Some(3), lazy: false });
+        v.push(Config { name: "3-clones-overlapping", objects: vec![0, 1, 2], texts: vec![t(&["x", "common"]), t(&["common", "y"]), t(&["z", "common"])], bound: Some(3), lazy: false, fully_materialised: vec![] });
     }
     v
 }
@@ -283,6 +291,9 @@ fn build_books(cfg: &Config) -> Vec<Arc<Spreadsheet>> {
         let mut b = original.clone();
         for (i, t) in cfg.texts[j].iter().enumerate() {
             b.get_sheet_mut(&0).unwrap().get_cell_mut((1u32, i as u32 + 1)).set_value_string(*t);
+        }
+        if cfg.lazy && cfg.fully_materialised.contains(&j) {
+            b.read_sheet_collection();
         }
         out.push(Arc::new(b));
     }
